@@ -376,7 +376,7 @@ KERN_THEOREMS = {'kernel_dense_eq', 'kernel_sparse_eq', 'kernel_dispatch_eq'}
 
 LAY_THEOREMS = {'lay_complement_eq', 'lay_vee_eq', 'lay_dual_eq', 'lay_involutions_eq'}
 
-NUMBA_THEOREMS = {'nb_add_eq', 'nb_sub_eq', 'nb_mul_eq', 'nb_xor_eq', 'nb_or_eq', 'nb_invert_eq', 'nb_neg_eq', 'nb_pos_eq'}
+NUMBA_THEOREMS = {'nb_add_eq', 'nb_sub_eq', 'nb_mul_eq', 'nb_xor_eq', 'nb_or_eq', 'nb_invert_eq', 'nb_neg_eq', 'nb_pos_eq', 'nb_pow_eq'}
 
 SERIES_THEOREMS = {'series_sin_eq', 'series_sinh_eq', 'series_cos_eq', 'series_cosh_eq'}
 
